@@ -13,7 +13,8 @@ P["C01"] = dict(
     claimed=True,
     technique="static analysis: exact rational series-reversion identities over the HIR constant tables; MIR "
               "dataflow rules on the registered fwd/inv pairs and the direction dispatch",
-    decides=["R-CLONE-AGREE (switches): like-named boolean switches of a forward and an inverse function are built from the same tests",
+    decides=["R-LON0-EVERY-WRITE: every value written by the inverse (forward) function of a projection declaring lon_0 has a longitude (position) that depends on lon_0, special-cased aspects included",
+             "R-CLONE-AGREE (switches): like-named boolean switches of a forward and an inverse function are built from the same tests",
              "R-K0-LINEAR: for merc, lcc, btmerc, butm the forward easting / northing are exactly offset + k_0 * G (G free of k_0, offset exactly x_0 / y_0), and in the inverse every arithmetic expression of the input depends on it only through (input - offset) / k_0 (exact rational-function identities)",
              "R-INV-DECLARED: `<operator> inv` reaches handle_op_inversion for every invertible built-in",
              
@@ -44,7 +45,8 @@ P["C01"] = dict(
 P["C05"] = dict(
     claimed=True,
     technique="static analysis: exact rational identities between the Krueger, rectifying and conformal series tables",
-    decides=["R-K0-LINEAR (stored constants): every constant a projection's constructor derives from k_0 and stores is proportional to k_0 (or a false origin plus such a term)",
+    decides=["R-NO-INPUT-CLAMP: no clamp / min / max is applied to an input coordinate element in the per-tuple loops of the plane projections",
+             "R-K0-LINEAR (stored constants): every constant a projection's constructor derives from k_0 and stores is proportional to k_0 (or a false origin plus such a term)",
              "R-BRANCH-AGREE: the alternative formulas of `ts` (and of any ancillary function taking a (sin, cos) pair) are equal as rational functions modulo sin^2 + cos^2 = 1",
              "R-PARALLELS-SYMMETRIC: every branch condition of lcc::new on an arithmetic combination of both standard parallels is symmetric in them, and lat_0 defaults to lat_1 on the strength of |lat_1 - lat_2| < eps",
              "R-KEY-DECLARED: every key (and indexed accessor, e.g. ellps(1)) an operator or its constructor reads is declared by its gamut or stored by the constructor - the user's ellipsoid reaches the projection",
@@ -70,7 +72,8 @@ P["C06"] = dict(
     claimed=True,
     technique="static analysis: exact checks of the ellipsoid table (f64 grammar, uniqueness, golden a and 1/f), "
               "series reversion identities, meridian-arc coefficients = binom(1/2,k)^2",
-    decides=["R-BRANCH-AGREE: numerically motivated alternative branches of the ancillary functions compute the same function",
+    decides=["R-CURVATURE-RADIANS: the combined radii are computed from radii at one and the same latitude",
+             "R-BRANCH-AGREE: numerically motivated alternative branches of the ancillary functions compute the same function",
              "R-AZIMUTH-ATAN2: the azimuths returned by geodesic_fwd / geodesic_inv are two-argument arctangents",
              "R-COINCIDENCE-BOTH: geodesic_inv's coincidence short-cut looks at both coordinate differences",
              "R-POLAR-HEIGHT: on the polar axis the height is |Z| - b",
@@ -97,7 +100,8 @@ P["C06"] = dict(
 P["C11"] = dict(
     claimed=True,
     technique="static analysis: exact checks of the unit and adaptor tables from HIR constants",
-    decides=["R-COMBINE-ROLES: combine_descriptors searches from.post for elements of to.post (give = from^-1 o to)",
+    decides=["R-INDEX-VALIDATION (axisswap/length): at most 4 indices are accepted",
+             "R-COMBINE-ROLES: combine_descriptors searches from.post for elements of to.post (give = from^-1 o to)",
              "R-NOOP-EXACT: adapt's noop value compares the multipliers exactly (no abs, tolerance or ordered comparison, also inside predicate closures)",
              "R-AXISSWAP-SHORTCUT: axisswap by-passes its loop only on the absence of `order`, never on its length or content",
              "R-UNITCONVERT-WIRING (no partial by-pass): no return by-passes the per-tuple loop on the strength of one of the two factors alone",
@@ -145,7 +149,9 @@ P["C02"] = dict(
 P["C07"] = dict(
     claimed=True,
     technique="static analysis: loop-carried-state and element-preservation dataflow on the Helmert/Molodensky loops",
-    decides=["T-MOLODENSKY: with da = df = 0 the full and the abridged Molodensky corrections are the exact linearisation of the cartesian shift (six rational-function identities in dx, dy, dz, N, M, h and the sines / cosines)",
+    decides=["R-FIXED-TIME: fixed_time is set without comparing t_obs with t_epoch",
+             "R-MOLO-NO-PARTIAL-BYPASS: molodensky by-passes its loop only on tests that look at all of dx, dy, dz, da, df (or on a missing parameter)",
+             "T-MOLODENSKY: with da = df = 0 the full and the abridged Molodensky corrections are the exact linearisation of the cartesian shift (six rational-function identities in dx, dy, dz, N, M, h and the sines / cosines)",
              "R-ROT-SMALL-ANGLE: with exact = false the matrix of rotation_matrix satisfies M(-r) = M(r) transposed as a polynomial identity (both conventions)",
              "R-MOLO-BOTH-ELLPS: molodensky stores the da / df derived from the two ellipsoids only where both ellps_0 and ellps_1 are known to have been given",
              "R-FLAG-COVERS: the decisions to set helmert's `dynamic` and `rotated` flags mention every stored quantity the apply function uses under that flag (DT, DR, DS; R, DR)",
@@ -172,7 +178,9 @@ P["C07"] = dict(
 P["C08"] = dict(
     claimed=True,
     technique="static analysis: per-iteration typestate (written x counted) on the grid operators' loops",
-    decides=["R-NULL-ENDS-LIST: the branch that records the null grid leaves the grid-list loop (grids after `null` are ignored)",
+    decides=["R-MARGIN-PASSED: Ntv2Grid::at passes the caller's margin on to both the sub-grid search and the interpolation",
+             "R-GRID-MISS-IS-NAN: no result of grids_at is given a default (unwrap_or ...) in the grid operators",
+             "R-NULL-ENDS-LIST: the branch that records the null grid leaves the grid-list loop (grids after `null` are ignored)",
              "R-GRID-INVARIANT reads guards merged into disjunctions and stored booleans (guards.py)",
              "R-NULL-AFTER-STRIP: gridshift, deformation and deflection compare the grid name with `null` after removing the `@` prefix",
              "R-GRIDS-INDEX-GUARD: the first grid of the list is consulted only when the list is non-empty",
@@ -201,7 +209,9 @@ P["C10"] = dict(
     claimed=True,
     technique="static analysis: set-of-states typestate dataflow per loop iteration (written none/value/NaN x "
               "counted 0/1/2+), and element-wise value-graph comparison of written tuples with the tuple read",
-    decides=["R-LIMIT-ON-PLANE: the transverse Mercator strip limit is tested, forward, on the value that is scaled into the written easting and, inverse, on an arithmetic function of the input",
+    decides=["R-NO-INPUT-CLAMP: no clamp / min / max is applied to an input coordinate element in the per-tuple loops of the plane projections",
+             "R-GRID-MISS-IS-NAN: no result of grids_at is given a default (unwrap_or ...) in the grid operators",
+             "R-LIMIT-ON-PLANE: the transverse Mercator strip limit is tested, forward, on the value that is scaled into the written easting and, inverse, on an arithmetic function of the input",
              "R-STOMP-ALL: a whole-set failure leaves no finite element behind",
              "R-COUNT-OR-NAN: on every path through one iteration of every per-tuple loop the tuple is (written or "
              "passed) and counted once, or overwritten with NaN and not counted",
@@ -375,7 +385,8 @@ P["C13"] = dict(
     claimed=True,
     technique="static analysis: abstract interpretation of the value graph in a unit domain (deg/rad) and an additive "
               "polarity domain for the false origin; affine extraction of the UTM constants; sign-slice of aspect selection",
-    decides=["R-LIMIT-ON-PLANE: the strip limit of the transverse Mercator inverse is applied to the input with the false easting removed",
+    decides=["R-LON0-EVERY-WRITE: every value written by the inverse (forward) function of a projection declaring lon_0 has a longitude (position) that depends on lon_0, special-cased aspects included",
+             "R-LIMIT-ON-PLANE: the strip limit of the transverse Mercator inverse is applied to the input with the false easting removed",
              "R-PARALLELS-SYMMETRIC: every branch condition of lcc::new on an arithmetic combination of both standard parallels is symmetric in them, and lat_0 defaults to lat_1 on the strength of |lat_1 - lat_2| < eps",
              "R-LATTS-K0 (even): the decision to derive k_0 from lat_ts does not depend on the sign of lat_ts",
              "R-K0-LINEAR: for merc, lcc, btmerc, butm the forward easting / northing are exactly offset + k_0 * G (G free of k_0, offset exactly x_0 / y_0), and in the inverse every arithmetic expression of the input depends on it only through (input - offset) / k_0 (exact rational-function identities)",
@@ -452,7 +463,9 @@ P["C14"] = dict(
     claimed=True,
     technique="static analysis: wiring rules between sibling implementations (contexts, adapt/axisswap/unitconvert, "
               "operators vs their parameter declarations) and exact series identities between tables of different origin",
-    decides=["R-OP-NO-REGISTRATION: instantiating does not change what names mean in either context",
+    decides=["R-CURVATURE-RADIANS: every latitude handed to a radius-of-curvature method in curvature::fwd is converted from degrees",
+             "R-NOOP-EXACT: adapt's no-op decision compares the multipliers exactly (axisswap and adapt agree on sign-only mappings)",
+             "R-OP-NO-REGISTRATION: instantiating does not change what names mean in either context",
              "R-POLAR-HEIGHT: cart's inverse and GeoCart::geographic both take the height on the polar axis as |Z| minus the semiminor axis",
              "R-RF-ZERO-CONVENTION: Ellipsoid::named and TriaxialEllipsoid::named treat the table's spheres alike",
              "R-PROJ-PASSTHROUGH: Plain (which filters every definition through parse_proj) and Minimal see the same text for every Rust Geodesy definition",
